@@ -482,7 +482,7 @@ pub fn run_load(sb: &mut Sandbox, refs: &Refs, case: &LoadCase, extra_args: &[(&
             let now = std::fs::read(dir.join(n)).ok();
             let h = qpz_core::rng::hash_bytes(now.as_deref().unwrap_or(&[0xff]));
             if h != before_outputs[*n] {
-                ev.findings.push(("load:rejecting-stage-wrote-output".into(), format!("{} failed ({}) but changed {n}", case.loader, res.error)));
+                ev.findings.push(("load:rejecting-stage-wrote-output".into(), format!("{} failed ({}) but changed {n}", case.loader, crate::c23::norm_err(&res.error))));
             }
         }
     }
@@ -901,6 +901,29 @@ pub fn pair_histories(refs: &Refs, a: usize, b: usize, rng: &mut Rng) -> Vec<Boo
     for l in DIR_LOADERS {
         for k in 2..variants.len() {
             v.push(BootHistory { variants: variants.clone(), steps: vec![BootStep { loader: l.to_string(), variant: 0 }, BootStep { loader: l.to_string(), variant: k }], fseed: 1 });
+        }
+    }
+    v
+}
+
+/// Enumerated two-step histories for a process that remembers what it verified: a genuine template
+/// is accepted first, then EVERY entry point of that layer is offered the same template with one bit
+/// of the proof body flipped (identical public inputs, so anything keyed on them looks the same).
+pub fn template_memo_histories(a: usize) -> Vec<BootHistory> {
+    let variants = vec![
+        Variant { gen: a, faults: vec![] },
+        Variant { gen: a, faults: vec![SFault::BitFlip { file: "dummy_proof.bin".into(), offset: 100, bit: 3 }] },
+        Variant { gen: a, faults: vec![SFault::BitFlip { file: "dummy_private_batch_proof.bin".into(), offset: 100, bit: 3 }] },
+    ];
+    let mut v = vec![];
+    for first in ["load_private_dir", "load_private_new"] {
+        for l in LEAF_TEMPLATE_ENTRY_POINTS {
+            v.push(BootHistory { variants: variants.clone(), steps: vec![BootStep { loader: first.to_string(), variant: 0 }, BootStep { loader: l.to_string(), variant: 1 }], fseed: 1 });
+        }
+    }
+    for first in ["load_public_dir", "load_aggregator"] {
+        for l in PB_TEMPLATE_ENTRY_POINTS {
+            v.push(BootHistory { variants: variants.clone(), steps: vec![BootStep { loader: first.to_string(), variant: 0 }, BootStep { loader: l.to_string(), variant: 2 }], fseed: 1 });
         }
     }
     v
